@@ -109,4 +109,19 @@ spec resultBin(op BinaryOperator, l int, r int) int :=
 func IsExternFunc [C18]
   pure
   ensures result <==> (fun != nil && fun.ExternFile.Type == token.STRING)
+
+// TRUSTED model of a symbol table (interface ast.SymbolTable): lookups do not change anything; inserting changes
+// only symbol tables
+func (SymbolTable).LookupDecl
+  trusted
+  modifies nothing
+func (SymbolTable).Enclosing
+  trusted
+  modifies nothing
+func (SymbolTable).InsertDecl
+  trusted
+  modifies ast.BasicSymbolTable, map:map[string]ast.Declaration
+func IsGlobalScope
+  trusted
+  modifies nothing
 @*/
